@@ -40,7 +40,7 @@ func propC06(r *Run) {
 		w.fs.PutDir(cfg.BaseDir, 0o700)
 		def := cfg.SetMap()[cfg.Default]
 		// distinctive user names (so that a leaked user list is recognisable in any response body)
-		pw := map[string]string{"zq-root-admin": "pw-of-root", "zq-second-admin": "pw-of-second", "zq-plain-user": "pw-of-plain", "zq-other-user": "pw-of-other"}
+		pw := map[string]string{"zq-root-admin": "pw-of-root", "zq-second-admin": "pw-of-second", "zq-plain-user": "pw-of-plain", "zq-other-user": "pw-of-other", "ZQ-Plain-User": "pw-of-upper-plain"}
 		admins := map[string]bool{"zq-root-admin": true, "zq-second-admin": true}
 		i := 0
 		for _, u := range sortedKeysA(pw) {
@@ -69,7 +69,7 @@ func propC06(r *Run) {
 			}
 			return false, false
 		}
-		names := []string{"zq-root-admin", "zq-second-admin", "zq-plain-user", "zq-other-user"}
+		names := []string{"zq-root-admin", "zq-second-admin", "zq-plain-user", "zq-other-user", "ZQ-Plain-User"}
 		// login obtains a session token through /api/authenticate (sequential client call + drain)
 		login := func(u, p string) *tokInfo {
 			c := &Call{Kind: "authenticate", Via: "api", Agent: a.idx, User: u, PW: p}
@@ -115,14 +115,14 @@ func propC06(r *Run) {
 				creds = append(creds, "oldpw-wrong", "oldpw-right", "oldpw-right", "both")
 			}
 			q.cred = creds[r.Choose("cred", len(creds))]
-			q.target = append(names, "zq-nobody", "../zq-plain-user", "")[r.Choose("target", 7)]
+			q.target = append(names, "zq-nobody", "../zq-plain-user", "", "ZQ-PLAIN-USER", "zq-plain-user ")[r.Choose("target", 10)]
 			q.newpw = fmt.Sprintf("new-pw-%d", k)
 			q.admin = r.Choose("admin-flag", 2) == 1
 			// obtain the credential
 			sessUser := ""
 			switch q.cred {
 			case "user-session":
-				sessUser = []string{"zq-plain-user", "zq-other-user"}[r.Choose("sess-user", 2)]
+				sessUser = []string{"zq-plain-user", "zq-other-user", "ZQ-Plain-User"}[r.Choose("sess-user", 3)]
 			case "admin-session", "expired", "tampered", "other-instance", "both":
 				sessUser = []string{"zq-root-admin", "zq-second-admin"}[r.Choose("sess-admin", 2)]
 			}
@@ -296,7 +296,7 @@ func propC06(r *Run) {
 				}
 				for _, n := range names {
 					// the requester's own input may be echoed; other names must not appear
-					if !strings.Contains(tgt, n) && !strings.Contains(q.target, n) && strings.Contains(respBody, n) {
+					if !strings.Contains(strings.ToLower(tgt), strings.ToLower(n)) && !strings.Contains(strings.ToLower(q.target), strings.ToLower(n)) && strings.Contains(respBody, n) {
 						r.Fail("authz/user-list-disclosed/"+q.endpoint, "refused request %s discloses user %s: %s", line, n, truncateA(respBody, 200))
 					}
 				}
